@@ -104,7 +104,7 @@ class ZConfigParser:
             self.error(e.message)
 
         if isempty:
-            self.context.endSection(section, type_, name, newsect)
+            self.finish_section(section, type_, name, newsect)
             return section
 
         self.stack.append((type_, name, section))
@@ -117,9 +117,14 @@ class ZConfigParser:
         opentype, name, prevsection = self.stack.pop()
         if type_ != opentype:
             self.error("unbalanced section end")
+        self.finish_section(prevsection, type_, name, section)
+        return prevsection
+
+    def finish_section(self, parent, type_, name, section):
+        # shared by '<type>...</type>' and '<type/>': errors raised while the
+        # section is finished are located on the line that closes it
         try:
-            self.context.endSection(
-                prevsection, type_, name, section)
+            self.context.endSection(parent, type_, name, section)
         except ZConfig.DataConversionError as e:
             if e.lineno < 0:
                 e.lineno = self.lineno
@@ -128,7 +133,6 @@ class ZConfigParser:
             raise
         except ZConfig.ConfigurationError as e:
             self.error(e.message)
-        return prevsection
 
     def handle_key_value(self, section, rest):
         m = _keyvalue_rx.match(rest)
